@@ -218,10 +218,10 @@ Lemma stream_run_unfold c w ps merged_end merged forked :
   if run_rejected c w then ([], JInvalidArg) else
   let fuel := (40 * (length (w_rest w) + length merged + 20))%nat in
   match live_try c (w_hub w) (run_start c w) with
-  | BOk burst => if j_filter c =? 1 then live_phase_fin fuel c w None burst 0 ps [] else live_phase fuel c w burst 0 ps []
+  | BOk burst => if j_filter c =? 1 then live_phase_fin fuel c w (start_mem c) burst 0 ps [] else live_phase fuel c w burst 0 ps []
   | BFuel | BPanic => ([], JFuel)
   | BErr => if j_filter c =? 1
-            then file_phase_fin fuel c w None (hub_lowest (w_hub w))
+            then file_phase_fin fuel c w (start_mem c) (hub_lowest (w_hub w))
                    (fst (run_files c (run_start c w) merged_end merged forked))
                    (snd (run_files c (run_start c w) merged_end merged forked)) 0 ps []
             else file_phase fuel c w (hub_lowest (w_hub w))
@@ -248,12 +248,12 @@ Proof.
   unfold seen.
   destruct (live_try c (w_hub w) start) as [burst| | |] eqn:El.
   - left. destruct (j_filter c =? 1).
-    + match goal with |- context [live_phase_fin ?f _ _ _ _ _ _ _] => destruct (live_fifo_fin f c w None burst 0 ps []) as (k & Hk) end.
+    + match goal with |- context [live_phase_fin ?f _ _ _ _ _ _ _] => destruct (live_fifo_fin f c w (start_mem c) burst 0 ps []) as (k & Hk) end.
       exists burst, k. split; [reflexivity|]. apply raw_out_live. exact Hk.
     + match goal with |- context [live_phase ?f _ _ _ _ _ _] => destruct (live_fifo f c w burst 0 ps []) as (k & Hk) end.
       exists burst, k. split; [reflexivity|]. apply raw_out_live. exact Hk.
   - right. right. split; [reflexivity|]. destruct (j_filter c =? 1).
-    + match goal with |- context [file_phase_fin ?f _ _ _ ?lo _ _ _ _ _] => pose proof (file_shapes_fin f c fend fevs w None lo 0 ps []) as H end.
+    + match goal with |- context [file_phase_fin ?f _ _ _ ?lo _ _ _ _ _] => pose proof (file_shapes_fin f c fend fevs w (start_mem c) lo 0 ps []) as H end.
       destruct H as [(pre & e & rest & m & lowest & burst & k & Ef & Hns & Hj & Hok)|[[Hns Hr]|[Hs Hr]]].
       * left. exists pre, e, rest, m, lowest, burst, k. split; [exact Ef|]. split; [exact Hns|]. split; [exact Hj|].
         apply raw_out_live. exact Hok.
@@ -273,5 +273,11 @@ Qed.
 Lemma seen_stateless c X : j_filter c <> 1 -> seen c X = X.
 Proof. intros H. unfold seen. apply N.eqb_neq in H. rewrite H. reflexivity. Qed.
 
-Lemma seen_final c X : j_filter c = 1 -> seen c X = undup c None X.
+Lemma seen_final c X : j_filter c = 1 -> seen c X = undup c (start_mem c) X.
 Proof. intros H. unfold seen. rewrite H. reflexivity. Qed.
+
+Lemma start_mem_num c : j_mode c = 0 -> start_mem c = None.
+Proof. intros H. unfold start_mem. rewrite H. reflexivity. Qed.
+
+Lemma start_mem_cursor c cu : j_mode c = 1 -> j_cursor c = Some cu -> start_mem c = Some (rn (cu_blk cu)).
+Proof. intros H1 H2. unfold start_mem. rewrite H1, H2. reflexivity. Qed.
